@@ -1,4 +1,5 @@
-//! Helpers of the C07 check: the naive model inverted index + segment builder (`model`) and the
-//! read-back comparison (`verify`).
+//! Helpers of the C07 check: the naive model inverted index + segment builder (`model`) the read-back
+//! comparison (`verify`) and the generator of terms with equal in-memory hash (`collide`).
+pub mod collide;
 pub mod model;
 pub mod verify;
